@@ -69,4 +69,37 @@ def build_map(w):
         },
         raises={'AnyException': {'t': 'True'}, 'AnyBaseException': {'t': 'True'}, 'MemoryError': {'t': 'True'}},
     )
-    return [set_]
+    return [set_, map_ack_contract(w, PROP, CS, n_chunks)]
+
+
+def map_ack_contract(w, prop, CS, n_chunks):
+    """MapResult._ack: the worker that accepted chunk i is recorded as the owner of exactly the items of that chunk (the
+    last one may be shorter), nothing else is touched and the per-item lists keep the length of the job"""
+    lists = ('self._accepted', 'self._worker_pid', 'self._time_accepted')
+    lens = ' and '.join('len(%s) == self._length' % l for l in lists)
+    in_chunk = 'i * %s <= j and j < (i + 1) * %s and j < self._length' % (CS, CS)
+    done = lambda bound: ('all(implies(i * %s <= j and j < %s and j < self._length, at(self._accepted, j) and '
+                          'at(self._worker_pid, j) == pid and at(self._time_accepted, j) == time_accepted) for j in ints())' % (CS, bound))
+    others = ('all(implies(0 <= j and j < self._length and not (%s), at(self._accepted, j) == old(at(self._accepted, j)) and '
+              'at(self._worker_pid, j) == old(at(self._worker_pid, j)) and '
+              'at(self._time_accepted, j) == old(at(self._time_accepted, j))) for j in ints())' % in_chunk)
+    return Contract(
+        'pool.MapResult._ack', prop=prop, variants=['map'],
+        params={'self': ref('Job'), 'i': IntS, 'time_accepted': RealS, 'pid': IntS},
+        requires={'wf': 'self._chunksize > 0 and self._length >= 0 and allocated(self._cache) and allocated(self._event) and ' +
+                        ' and '.join('allocated(%s)' % l for l in lists) + ' and ' + lens +
+                        ' and self._accepted != self._worker_pid and self._accepted != self._time_accepted and '
+                        'self._worker_pid != self._time_accepted',
+                  'chunk_index': '0 <= i and i < %s' % n_chunks},
+        modifies=['self._accepted.*', 'self._worker_pid.*', 'self._time_accepted.*', 'self._cache.*'],
+        loops={0: {'inv': {'lists_keep_the_length_of_the_job': lens,
+                           'recorded_so_far': done('_i'), 'rest_untouched_so_far':
+                           'all(implies(0 <= j and j < self._length and not (i * %s <= j and j < _i), '
+                           'at(self._accepted, j) == old(at(self._accepted, j)) and '
+                           'at(self._worker_pid, j) == old(at(self._worker_pid, j)) and '
+                           'at(self._time_accepted, j) == old(at(self._time_accepted, j))) for j in ints())' % CS},
+                   'modifies': ['self._accepted.*', 'self._worker_pid.*', 'self._time_accepted.*']}},
+        ensures={'lists_keep_the_length_of_the_job': lens,
+                 'owner_recorded_for_exactly_the_items_of_the_chunk': done('(i + 1) * %s' % CS),
+                 'other_items_untouched': others},
+    )
